@@ -70,6 +70,11 @@ def render(cfg, dev):
         out.append("ip access-list extended " + n)
         for i, ace in enumerate(cfg["acls"][n]):
             out.append(" %s%s" % (("%d " % (10 * (i + 1))) if xe else "", ace_text(ace, dev)))
+    if dev:
+        # blocks the tool does not handle, printed directly behind the managed ACLs, with sub-commands that look
+        # like ACL entries (and an unknown one-line command in between): not part of any managed ACL
+        out += ["ipv6 access-list V6-unmanaged", " permit ipv6 any any", " deny ipv6 any any log", "ip sla 1",
+                "mac access-list extended MAC-unmanaged", " permit any any", " deny any any"]
     cms = cfg.get("cmaps", {})
     for k in sorted(cms, key=lambda k: (cms[k]["name"], cms[k]["seq"])):
         e = cms[k]
@@ -193,7 +198,15 @@ def parse_cmd(line):
             return {"ev": "SeqDelete", "k": int(tok[0])}
         return {"ev": "SeqInsert", "k": int(tok[0]), "ace": parse_ace(tok[1:])}
     if tok[0] in ("permit", "deny", "remark"):
-        return {"ev": "AceDelete" if no else "SeqAppend", "ace": parse_ace(tok)}
+        if no:
+            try:
+                return {"ev": "AceDelete", "ace": parse_ace(tok)}
+            except (Broken, KeyError, ValueError, IndexError):
+                # `no <entry>` for an entry outside the universe: no device ACL of the universe holds it, the device
+                # model answers "entry to be removed does not exist" (an entry to be ADDED must be interpretable)
+                return {"ev": "AceDelete", "ace": {"act": tok[0], "svc": "?" + " ".join(tok[1:]), "src": {"k": "any", "v": ""},
+                                                   "dst": {"k": "any", "v": ""}, "log": ""}}
+        return {"ev": "SeqAppend", "ace": parse_ace(tok)}
     if tok[0] == "interface" and not no:
         return {"ev": "IntfEnter", "i": RIFNAME[tok[1]]}
     if tok[:2] == ["crypto", "map"] and len(tok) == 5 and tok[4] in ("ipsec-isakmp", "gdoi"):
